@@ -45,8 +45,8 @@ ASSUMPTIONS = [
     "stopping inequalities are the ones documented in the two _solve methods, recomputed from convergence_history and the options",
 ]
 FLOORS = {
-    "quick": {"mass_balance": 1500, "distance_is_cost_of_flux": 1500, "status_honest": 400, "fault:not_converged": 2000, "fault:last_valid_iterate": 2000, "fault:depth:backend": 1000, "fault:depth:after_update": 1000, "fault:depth:backend_returns_nan": 1000, "monitoring_active": 1500},
-    "thorough": {"mass_balance": 12000, "distance_is_cost_of_flux": 12000, "status_honest": 3800, "fault:not_converged": 16000, "fault:last_valid_iterate": 16000, "fault:depth:backend": 8000, "fault:depth:after_update": 8000, "fault:depth:backend_returns_nan": 8000, "monitoring_active": 12000},
+    "quick": {"mass_balance": 1500, "distance_is_cost_of_flux": 1500, "status_honest": 400, "fault:not_converged": 2000, "fault:last_valid_iterate": 2000, "fault:depth:backend": 1000, "fault:depth:after_update": 1000, "fault:depth:backend_returns_nan": 1000, "second_pair_on_same_object": 150, "monitoring_active": 1500},
+    "thorough": {"mass_balance": 12000, "distance_is_cost_of_flux": 12000, "status_honest": 3800, "fault:not_converged": 16000, "fault:last_valid_iterate": 16000, "fault:depth:backend": 8000, "fault:depth:after_update": 8000, "fault:depth:backend_returns_nan": 8000, "second_pair_on_same_object": 1500, "monitoring_active": 12000},
 }
 SHARD_TIMEOUT = {"quick": 1500, "thorough": 6000}
 
@@ -124,6 +124,8 @@ def run_shard(spec, R):
         extra = {}
         if c["tight"]:
             extra = {"tol_residual": 1e-8, "tol_increment": 1e-6, "tol_distance": 1e-8}
+        if c["method"].startswith("bregman") and c["id"] % 8 == 4:
+            extra = {**extra, "L": [2.0, 0.5][(c["id"] // 8) % 2]}  # Bregman penalty other than the default 1
         num_iter = 12 if c["tight"] else 6
         cw = c["weight"]
         weight_img = None
@@ -192,6 +194,12 @@ def run_shard(spec, R):
             tdu = np.asarray(w1.transport_density(flux, weighted=False, flatten=True), float)
             tdu_m = TR.transport_density(M, flux, c["l1"], 1.0)
             sub["unweighted_transport_density"] = tdu.shape == tdu_m.shape and float(np.max(np.abs(tdu - tdu_m))) <= 1e-10 * max(float(np.max(np.abs(tdu_m))), 1e-300)
+            # what was handed out stays what it was when the object evaluates something else afterwards
+            kept = {k: np.array(info_out[k], dtype=float, copy=True) for k in ("transport_density", "flux", "pressure")}
+            probe_flux = 2.0 * flux + 1.0
+            w1.transport_density(probe_flux, weighted=False, flatten=False)
+            w1.transport_density(probe_flux, flatten=True)
+            sub["outputs_intact_after_later_evaluation"] = all(np.array_equal(np.asarray(info_out[k], float), kept[k], equal_nan=True) for k in kept)
             press = np.asarray(info_out["pressure"], float)
             pflat = np.asarray(sol[w1.pressure_slice], float)
             sub["pressure_is_solution_block"] = press.shape == shape and np.array_equal(M.flat(press), pflat, equal_nan=True)
@@ -238,6 +246,30 @@ def run_shard(spec, R):
               cls=f"{dim}d/{c['method']}/{formulation}/{backend}")
         if c["id"] < 2:
             R.sample({**desc, "distance": float(dist), "iterations": n_iter_run, "converged": conv, "swallowed": swallowed})
+        # a second pair on the same solver object (Bregman with a penalty L != 1 included, see `extra`): the flux of
+        # the second call balances the second pair's masses
+        if c["id"] % 2 == 0 and flux is not None and not swallowed:
+            a2, b2 = wass.mass_pair(rng, shape, c["mass"])
+            m1b, m2b = wass.images(darsia, a2, b2, h)
+            cap2 = wass.Capture(w1)
+            ok, out2 = R.guarded("solve_second_pair", lambda: w1(m1b, m2b), key=lambda e, w: ml_key)
+            if ok and not cap2.swallowed:
+                d2, sol2, _i2 = cap2.solve_result
+                f2 = M.flat(b2 - a2) * M.volume
+                fs2 = max(float(np.max(np.abs(f2))), 1e-300)
+                flux2 = np.asarray(sol2[w1.flux_slice], float)
+                if np.all(np.isfinite(flux2)):
+                    res2 = M.divergence(flux2) - f2
+                    if float(np.max(np.abs(res2))) > mb_tol * fs2 and any(x.get("contrast", 1.0) > 1e10 and x.get("residual", 0.0) > mb_tol * fs2 for x in cap2.linear_calls):
+                        R.skip("mass_balance:linear_backend_precision_lost_on_degenerate_mobility")
+                    else:
+                        k2 = "C04:anderson_singular_least_squares" if (c["aa"] > 0 and cap2.aa_singular) else ml_key
+                        R.check(float(np.max(np.abs(res2))) <= mb_tol * fs2, "mass_balance",
+                                lambda: {**desc, "run": "second pair on the same object", "max_residual": float(np.max(np.abs(res2))), "scale": fs2}, key=k2, group=grp + "/second_call")
+                        ind2 = TR.cost(M, flux2, c["l1"], 1.0 if cw is None else float(cw))
+                        R.check(abs(float(d2) - ind2) <= 1e-10 * max(abs(ind2), 1e-300) + 1e-300, "distance_is_cost_of_flux",
+                                lambda: {**desc, "run": "second pair on the same object", "distance": float(d2), "independent_cost": ind2}, key=k2, group=grp + "/second_call")
+                        R.count("second_pair_on_same_object")
         # return_status path agrees
         if c["id"] % 7 == 0:
             opt2 = dict(opt)
